@@ -275,6 +275,12 @@ def run(ctx):
     ctx.cov["input_distribution"] = {"cases": len(cases), "corpus": len(corpus), "reference_runs": len(c2), "steps_with_reorg": nreorg, "restarts_after_arrivals": nrestart, "pool_scripts": len(scripts), "pool_steps": npool,
                                      "f7_fixed_in_source": f7_fixed}
     ctx.sample({"case": cases[0], "final": outs[0]["final"]["best"][:12]})
+    # "one forking below the irreversible block never displaces the main chain": the LIB is an input of
+    # the ChainDB model; that the node's own LIB veto survives restarts (plain, and with ForceResetHeight
+    # below / at / above the LIB) is checked on the real dpos.Status through g5's hook (lib/c08veto.py)
+    import c08veto
+    for f in c08veto.run_lib_veto_family(ctx):
+        fails.append((f["key"], f["what"], f["replay"]))
     seen = set()
     for key, text, c in fails:
         if key in seen:
